@@ -17,7 +17,8 @@ RULE = ("cases = operation histories on an EmcyConsumer (8-byte EMCY frames with
         "after every operation; producer frames (send / reset) for codes and registers at and beyond the field ends and "
         "data of 0..8 bytes; producer -> network -> consumer round trips; get_desc on single codes (through the model) and "
         "as run-length sweeps over all 65536 codes (oracle only); EmcyConsumer.wait with and without a code filter while a "
-        "second thread feeds frames (1..3 frames per wake-up, sometimes frames between two iterations of the loop). Codes are biased to the class boundaries 0x0000 0x00FF 0x0100 0x1000 0x10FF 0x1100 ... "
+        "second thread feeds frames (1..3 frames per wake-up, sometimes frames between two iterations of the loop, sometimes the "
+        "deadline of the call passing - on a scripted clock - while frames keep arriving). Codes are biased to the class boundaries 0x0000 0x00FF 0x0100 0x1000 0x10FF 0x1100 ... "
         "0xF000 0xF0FF 0xF100 0xFF00 0xFFFF and to reset / near-reset codes. Non-trivial = a history with at least one "
         "well-formed frame, any producer / round-trip / description case, a wait with at least one arrival; distinct by "
         "canonical JSON of the case")
@@ -28,7 +29,8 @@ TRUSTED = ["modelled, not verified: CPython struct.Struct('<HB5s') pack/unpack (
            "'5s'), tied by correspondence",
            "not modelled: threading.Condition, thread scheduling and time.time() in EmcyConsumer.wait; the model takes the "
            "wake-up schedule as an input and the harness realises given schedules (frames per wake-up, frames between two "
-           "iterations) with a feeder thread"]
+           "iterations, the wake-up at which the deadline has passed) with a feeder thread; canopen.emcy's `time` is replaced "
+           "by a scripted clock during a wait case, Condition.wait(timeout) keeps the real clock"]
 ASSUMPTIONS = ["timestamps are the integers injected by the case (the library passes them through untouched)",
                "wait: the wake-up schedule (which frames are seen by which wake-up, which wake-up is late) is an input of the "
                "model; C16_wait_next_match holds for every schedule"]
@@ -38,6 +40,7 @@ logging.disable(logging.CRITICAL)
 NODE = 5
 WAIT_TIMEOUT = 0.2
 BURST_SIG = "wait_burst_skips_match"      # fixed in /repo by 435c8a8 (wait looked only at log[-1])
+DEADLINE_SIG = "wait_ignores_deadline"    # an entry logged after the deadline of the call is handed out
 GAP_SIG = "wait_gap_skips_match"          # fixed in /repo by 435c8a8 (frame logged between two iterations of the loop)
 ANCHORS = [("canopen.emcy", "EmcyConsumer.on_emcy"), ("canopen.emcy", "EmcyConsumer.wait"),
            ("canopen.emcy", "EmcyConsumer.reset"), ("canopen.emcy", "EmcyProducer.send"),
@@ -274,25 +277,43 @@ def case_gaps(c):
     return [g[i] if i < len(g) else [] for i in range(len(c["wakes"]))]
 
 
+class _Clock:
+    """Stands in for the `time` module inside canopen.emcy while a wait case runs: time() is a scripted clock that
+    stands still until the case moves it past the deadline, so the deadline test of wait() does not depend on the
+    machine's speed.  (Condition.wait(timeout) itself keeps using the real clock.)"""
+
+    def __init__(self):
+        self.now = 1000.0
+
+    def time(self):
+        return self.now
+
+    def __getattr__(self, name):
+        return getattr(time, name)
+
+
 def run_wait_once(c):
-    from canopen.emcy import EmcyConsumer
-    cons = EmcyConsumer()
+    import canopen.emcy as emcy_mod
+    cons = emcy_mod.EmcyConsumer()
     gaps = case_gaps(c)
+    late_at = c.get("late_at")
     gc = None
     if any(gaps):
         gc = cons.emcy_received = _GapCondition()
     for f, ts in c["pre"]:
         cons.on_emcy(0x80 + NODE, bytes(f), ts)
     box = {}
+    clock = _Clock()
+    had_time = hasattr(emcy_mod, "time")
+    real_time = getattr(emcy_mod, "time", None)
+    emcy_mod.time = clock
 
     def waiter():
-        box["t0"] = time.monotonic()
         box["r"] = guarded(lambda: cons.wait(c["filt"], WAIT_TIMEOUT))
 
     th = threading.Thread(target=waiter, daemon=True)
     if gc is not None:
         gc.waiter = th
-    th.start()
     slow = False
 
     def log_frames(frames):
@@ -301,27 +322,37 @@ def run_wait_once(c):
             for f, ts in frames:
                 cons.on_emcy(0x80 + NODE, bytes(f), ts)
 
-    logged = len(c["pre"])
-    for batch, gap in zip(c["wakes"], gaps):
-        if not _blocked(cons, th):
-            break
-        if gap:
-            gc.pending = lambda gap=gap: log_frames(gap)
-        log_frames(batch)
-        logged += len(batch) + len(gap)
-        if gap:
-            # the gap frames are logged by the waiting thread's hook or by the helper; wait for them
+    try:
+        th.start()
+        logged = len(c["pre"])
+        for i, (batch, gap) in enumerate(zip(c["wakes"], gaps)):
+            if not _blocked(cons, th):
+                break
             t1 = time.monotonic()
-            while len(cons.log) < logged and time.monotonic() - t1 < 2.0:
-                time.sleep(0.0002)
-        if time.monotonic() - box.get("t0", time.monotonic()) > WAIT_TIMEOUT / 2:
-            slow = True
-    th.join(10)
-    if th.is_alive():
-        return Err(9, "wait did not return"), False
-    if gc is not None:
-        for t in gc.helpers:
-            t.join(2)
+            if late_at is not None and i == late_at:
+                clock.now += WAIT_TIMEOUT + 1.0          # the deadline of the call passes before these frames arrive
+            if gap:
+                gc.pending = lambda gap=gap: log_frames(gap)
+            log_frames(batch)
+            logged += len(batch) + len(gap)
+            if time.monotonic() - t1 > WAIT_TIMEOUT / 2:
+                slow = True       # the waiter may have run into Condition.wait's own (real) time-out meanwhile
+            if gap:
+                # the gap frames are logged by the waiting thread's hook or by the helper; wait for them
+                t1 = time.monotonic()
+                while len(cons.log) < logged and time.monotonic() - t1 < 2.0:
+                    time.sleep(0.0002)
+        th.join(10)
+        if th.is_alive():
+            return Err(9, "wait did not return"), False
+        if gc is not None:
+            for t in gc.helpers:
+                t.join(2)
+    finally:
+        if had_time:
+            emcy_mod.time = real_time
+        else:
+            del emcy_mod.time
     r = box.get("r")
     if isinstance(r, Err) or r is None:
         return r, slow
@@ -329,7 +360,7 @@ def run_wait_once(c):
 
 
 def run_wait(c):
-    # a run in which the machine was so slow that feeding took more than half the time-out is repeated
+    # a run in which the feeder was held up for more than half of Condition.wait's time-out is repeated
     for _ in range(4):
         r, slow = run_wait_once(c)
         if not slow:
@@ -445,14 +476,21 @@ def oracle(c, o):
                 if c["filt"] is None or e[0] == c["filt"]:
                     return e
             return None
-        want = first([frame_fields(f, ts) for b, g in zip(c["wakes"], gaps) for f, ts in b + g])
+        late_at = c.get("late_at")
+        in_time = list(zip(c["wakes"], gaps))[:late_at]        # what is logged once the deadline has passed does not count
+        want = first([frame_fields(f, ts) for b, g in in_time for f, ts in b + g])
         if o != want:
             looked_at = first([frame_fields(f, ts) for b in c["wakes"] for f, ts in b])
-            sig = (GAP_SIG if any(gaps) and o == looked_at else
+            ignoring_deadline = first([frame_fields(f, ts) for b, g in zip(c["wakes"], gaps) for f, ts in b + g])
+            sig = (DEADLINE_SIG if late_at is not None and o == ignoring_deadline else
+                   GAP_SIG if any(gaps) and o == looked_at else
                    BURST_SIG if any(len(b) > 1 for b in c["wakes"]) else "wait_wrong_entry")
             sched = "; ".join(", ".join(_fmt_entry(frame_fields(f, ts)) for f, ts in b) +
                               (" {between two iterations: " + ", ".join(_fmt_entry(frame_fields(f, ts)) for f, ts in g) + "}" if g else "")
-                              for b, g in zip(c["wakes"], gaps))
+                              + (" || DEADLINE PASSES HERE ||" if late_at is not None and i + 1 == late_at else "")
+                              for i, (b, g) in enumerate(zip(c["wakes"], gaps)))
+            if late_at == 0:
+                sched = "|| DEADLINE PASSES HERE || " + sched
             return (sig, f"wait({'None' if c['filt'] is None else hex(c['filt'])}) on a log of {len(c['pre'])} older entries with "
                          f"arrivals [{sched}] (';' separates wake-ups) returned {_fmt_entry(o) if o is not None else None}, "
                          f"expected {_fmt_entry(want) if want is not None else None}")
@@ -484,8 +522,8 @@ def coq_case(c):
     if k == "desc": return f"CDesc {gz(c['code'])}"
     if k == "wait":
         ws = []
-        for b, g in zip(c["wakes"], case_gaps(c)):
-            ws.append(f"KNew {gframes(b)}")
+        for i, (b, g) in enumerate(zip(c["wakes"], case_gaps(c))):
+            ws.append(f"{'KLate' if c.get('late_at') == i else 'KNew'} {gframes(b)}")
             if g:
                 ws.append(f"KNew {gframes(g)}")     # logged while the waiter is back in Condition.wait(): its own wake-up
         ws.append("KTimeout")
@@ -608,6 +646,31 @@ def gen_wait(rng, gapmatch=False):
     return c
 
 
+def gen_wait_deadline(rng):
+    """the deadline of the call passes (scripted clock) while frames keep arriving: nothing logged after it may be
+    handed out, however many non-matching frames arrived before (each of them restarts Condition.wait's own time-out)"""
+    target = rcode(rng)
+    other = [target ^ x for x in (0x0001, 0x0100, 0x1000, 0x8000)] + [rcode(rng)]
+    other = [x for x in other if x != target]
+    filt = rng.choice((target, target, target, None))
+    ts = rng.randrange(1000)
+
+    def fr(codes):
+        nonlocal ts
+        ts += rng.randrange(1, 50)
+        return [rframe(rng, rng.choice(codes)), ts]
+    pre = [fr(other + [target]) for _ in range(rng.choice((0, 0, 1, 2)))]
+    k = rng.choice((0, 1, 1, 2, 3, 5)) if filt is not None else 0
+    early_match = filt is not None and k > 0 and rng.random() < 0.2
+    wakes = [[fr(other) for _ in range(rng.choice((1, 1, 2)))] for _ in range(k)]
+    if early_match:
+        wakes[rng.randrange(k)].append(fr([target]))           # arrived in time: must still be handed over
+    wakes.append([fr([target] if rng.random() < 0.4 else other) for _ in range(rng.choice((1, 1, 2)))])   # the late wake-up
+    wakes += [[fr(other)] for _ in range(rng.choice((0, 1, 2)))]
+    wakes.append([fr([target])])                                # a match long after the deadline
+    return dict(kind="wait", filt=filt, pre=pre, wakes=wakes, late_at=k)
+
+
 def gen_cases(rng, tier):
     n_hist = {"quick": 260, "thorough": 2600, "search": 500}[tier]
     n_prod = {"quick": 150, "thorough": 1500, "search": 300}[tier]
@@ -676,6 +739,14 @@ def gen_cases(rng, tier):
               dict(kind="wait", filt=None, pre=[], wakes=[[e2001, e3000]]),
               dict(kind="wait", filt=0x2001, pre=[e2001], wakes=[[e3000, e2002], [e3000, e2001, e2002]]),
               dict(kind="wait", filt=0x2001, pre=[], wakes=[[e3000]], gaps=[[e2002]])]
+    # the deadline of the call passes while non-matching frames keep arriving (scripted clock)
+    cases += [dict(kind="wait", filt=0x2001, pre=[], wakes=[[e3000], [e2002], [e3000], [e2001]], late_at=2),
+              dict(kind="wait", filt=0x2001, pre=[], wakes=[[e3000], [e2002, e2001]], late_at=1),
+              dict(kind="wait", filt=0x2001, pre=[], wakes=[[e3000, e2001], [e2002]], late_at=1),
+              dict(kind="wait", filt=None, pre=[e3000], wakes=[[e2001]], late_at=0),
+              dict(kind="wait", filt=0x2001, pre=[], wakes=[[e3000], [e2002], [e3000]], late_at=2)]
+    for _ in range(max(4, n_wait // 4)):
+        cases.append(gen_wait_deadline(rng))
     # a frame logged right after a look at the log that found no match (before 435c8a8 it was never examined)
     cases.append(dict(kind="wait", filt=0x2001, pre=[], wakes=[[e3000]], gaps=[[e2001]]))
     cases.append(dict(kind="wait", filt=0x2001, pre=[e2001], wakes=[[e3000, e2002], [e2002]], gaps=[[], [e2001, e3000]]))
@@ -702,8 +773,12 @@ def shrink(c):
         if c["pre"]:
             yield dict(c, pre=c["pre"][1:])
         w, g = c["wakes"], case_gaps(c)
+        la = c.get("late_at")
         for i in range(len(w)):
-            yield dict(c, wakes=w[:i] + w[i + 1:], gaps=g[:i] + g[i + 1:])
+            if la is None:
+                yield dict(c, wakes=w[:i] + w[i + 1:], gaps=g[:i] + g[i + 1:])
+            elif i != la:
+                yield dict(c, wakes=w[:i] + w[i + 1:], gaps=g[:i] + g[i + 1:], late_at=la - 1 if i < la else la)
         for i in range(len(w)):
             if len(w[i]) > 1:
                 for j in range(len(w[i])):
